@@ -12,7 +12,7 @@ use tvh::rng::Rng;
 use tvh::vdir::{OpKind, VerifDirectory};
 use tvh::{guarded, Args};
 
-const HEADER: &str = "From TV Require Import Base.Prelude Storage.Locks.";
+const HEADER: &str = "From TV Require Import Base.Prelude Storage.Locks Storage.LockFile.";
 
 #[derive(Clone, Debug)]
 enum LOp {
@@ -136,6 +136,53 @@ fn main() {
         if f7 { out.count("lifecycles_with_failing_rollback_rebuild", 1); }
         out.count("lifecycles", 1);
         out.count(["dir_ram", "dir_verif", "dir_mmap"][kind], 1);
+    }
+    // the lock-file protocol itself (Directory::acquire_lock's default implementation, on the harness directory):
+    // acquisition attempts with injected I/O faults at the creation / the flush of the lock file, and guard drops
+    {
+        use tantivy::directory::{Directory, DirectoryLock, Lock, INDEX_WRITER_LOCK};
+        use tantivy::directory::error::LockError;
+        let n_seq = if thorough { 600 } else { 120 };
+        for _ in 0..n_seq {
+            let vd = VerifDirectory::new();
+            let lock: &Lock = &INDEX_WRITER_LOCK;
+            let mut guards: Vec<(u64, DirectoryLock)> = vec![];
+            let mut terms: Vec<String> = vec![];
+            let mut codes: Vec<u64> = vec![];
+            let mut next_g = 1u64;
+            let len = rng.range(2, 12);
+            for _ in 0..len {
+                if guards.is_empty() || rng.chance(3, 5) {
+                    let g = next_g; next_g += 1;
+                    // faults only make sense when the lock is free (a held lock refuses before any I/O of its own)
+                    let (cf, ff) = if guards.is_empty() { match rng.below(5) { 0 => (true, false), 1 | 2 => (false, true), _ => (false, false) } } else { (false, false) };
+                    if cf { vd.set_fault(Some(vd.log_len()), true, vec![OpKind::Create]); }
+                    if ff { vd.set_fault(Some(vd.log_len()), true, vec![OpKind::Flush]); }
+                    let r = guarded(|| vd.acquire_lock(lock));
+                    vd.set_fault(None, false, vec![]);
+                    let code = match r { Ok(Ok(gd)) => { guards.push((g, gd)); 0 } Ok(Err(LockError::LockBusy)) => 1, Ok(Err(LockError::IoError(_))) => 3, Err(_) => 9 };
+                    terms.push(format!("Acq {g} {cf} {ff}"));
+                    codes.push(code);
+                } else {
+                    let i = rng.below(guards.len() as u64) as usize;
+                    let (g, gd) = guards.remove(i);
+                    drop(gd);
+                    terms.push(format!("Rel {g}"));
+                    codes.push(0);
+                }
+            }
+            let exists_now = vd.raw(&lock.filepath.to_string_lossy()).is_some();
+            let ops_t = format!("[{}]", terms.join("; "));
+            let codes_t = tvh::coqfmt::ns(&codes);
+            let desc = json!({"ops": terms, "codes": codes, "lock_file_exists_at_end": exists_now, "guards_alive_at_end": guards.len()});
+            let nontrivial = terms.iter().any(|t| t.ends_with("true")) && codes.iter().any(|c| *c == 1);
+            out.coq_case("tie", format!("let r := lfrun lf0 {ops_t} in list_eqb N.eqb (lfcodes (snd r)) {codes_t} && Bool.eqb (lf_exists (fst r)) {exists_now}"), json!({"what": "lock-file protocol: model vs Directory::acquire_lock", "case": desc}), nontrivial);
+            out.coq_case("spec", format!("list_eqb N.eqb (lfcodes (lfspec_run None {ops_t})) {codes_t}"), json!({"what": "lock-file protocol: who holds the lock (an attempt on a free lock succeeds unless ITS OWN I/O fails; a failed attempt changes nothing)", "case": desc}), nontrivial);
+            out.spec_checked(guards.len() <= 1, json!({"what": "two guards of the same lock alive at the same time", "case": desc}));
+            out.spec_checked(exists_now == !guards.is_empty(), json!({"what": "lock file exists without a guard / guard without its lock file", "case": desc}));
+            drop(guards);
+            out.count("lock_file_sequences", 1);
+        }
     }
     // racing creations: exactly one winner, the others get a lock failure, and the lock is free again afterwards
     let races = if thorough { 200 } else { 40 };
